@@ -147,6 +147,38 @@ pub fn check(case: &Case, obs: &mut Obs) -> CaseResult {
             );
         }
     }
+    // an appender that logs while it is being logged to: the nested record is routed like any other, once per
+    // delivery of the outer record to that appender, and the outer record's own fan-out continues afterwards
+    if let (Some(a0), true) = (cfg.appenders.first(), case.targets.len() >= 2) {
+        let (t1, t2) = (&case.targets[0], &case.targets[case.targets.len() - 1]);
+        if cfg.effective(t1) == cfg.effective_textual(t1) && cfg.effective(t2) == cfg.effective_textual(t2) {
+            let logger = std::sync::Arc::new(logger);
+            let (l2, t2c) = (logger.clone(), t2.clone());
+            NEST.with(|n| *n.borrow_mut() = Some((a0.clone(), std::sync::Arc::new(move || with_record(&t2c, log::Level::Warn, "inner", |r| l2.log(r))))));
+            let _ = drain_multiset(&sink);
+            let r = catch(|| with_record(t1, log::Level::Error, "outer", |r| logger.log(r)));
+            NEST.with(|n| *n.borrow_mut() = None);
+            if let Err(p) = r {
+                return fail("C01:panic", format!("an appender that logs from inside append made log() panic: {}", p));
+            }
+            let got = drain_multiset(&sink);
+            let outer = cfg.route(t1, log::Level::Error);
+            let k = outer.get(a0).copied().unwrap_or(0);
+            let mut want = outer.clone();
+            if k > 0 {
+                for (a, n) in cfg.route(t2, log::Level::Warn) {
+                    *want.entry(a).or_insert(0) += n * k;
+                }
+            }
+            obs.sub_evals += 1;
+            ensure!(
+                got == want,
+                "C01:misrouted-nested",
+                "appender {:?} logs a record for target {:?} (warn) whenever it receives the record for target {:?} (error): delivered {:?}, routing prescribes {:?}", a0, t2, t1, got, want
+            );
+            obs.class_if(k > 0, "appender-logs-from-inside-append");
+        }
+    }
     obs.nontrivial = cfg.loggers.len() >= 2 && interesting_probe;
     obs.class(format!("depth={}", sh.max_depth.min(6)));
     obs.class_if(sh.implied_intermediate, "implied-intermediate");
